@@ -52,7 +52,7 @@ func (route *Route) validateRecursive() error {
 			}
 
 			if r.DenomIn != denomIn {
-				return fmt.Errorf("invalid denom in: %s", r)
+				return fmt.Errorf("invalid denom in: %s", r.String())
 			}
 			denomIn = r.DenomOut
 		}
@@ -78,10 +78,10 @@ func (route *Route) validateRecursive() error {
 			}
 
 			if r.DenomIn != route.DenomIn {
-				return fmt.Errorf("invalid denom in: %s", r)
+				return fmt.Errorf("invalid denom in: %s", r.String())
 			}
 			if r.DenomOut != route.DenomOut {
-				return fmt.Errorf("invalid denom out: %s", r)
+				return fmt.Errorf("invalid denom out: %s", r.String())
 			}
 			weight, err := math.LegacyNewDecFromStr(parallel.Weights[i])
 			if err != nil {
